@@ -110,8 +110,17 @@ impl<T: Qcow2IoOps> Qcow2Dev<T> {
             Some(to_kill) => {
                 log::warn!("add_l2_slice: cache eviction, slices {}", to_kill.len());
                 // figure exact dependency on refcount cache & reftable entries
-                self.flush_refcount().await?;
-                self.flush_cache_entries(to_kill).await
+                let res = match self.flush_refcount().await {
+                    Ok(_) => self.flush_cache_entries(to_kill.clone()).await,
+                    Err(e) => Err(e),
+                };
+
+                // the evicted dirty slices aren't written back, keep them in
+                // cache, so that the next flush can write them
+                if res.is_err() {
+                    self.l2cache.put_back(to_kill);
+                }
+                res
             }
             _ => Ok(()),
         }
@@ -272,6 +281,13 @@ impl<T: Qcow2IoOps> Qcow2Dev<T> {
         for r in res {
             if r.is_err() {
                 eprintln!("cache slice write failed {r:?}\n");
+
+                // some slices may not reach disk, so keep all of them dirty
+                // and the next flush will write them again
+                for (_, e) in tv {
+                    e.set_dirty(true);
+                }
+                self.mark_need_flush(true);
                 return r;
             }
         }
@@ -341,7 +357,11 @@ impl<T: Qcow2IoOps> Qcow2Dev<T> {
         while let Some(idx) = rt.pop_dirty_blk_idx(None) {
             let start = idx << self.info.block_size_shift;
             let size = 1 << self.info.block_size_shift;
-            self.flush_table(rt, start, size).await?
+            if let Err(e) = self.flush_table(rt, start, size).await {
+                // this block isn't written out, so it is still dirty
+                rt.set_dirty((start >> 3) as usize);
+                return Err(e);
+            }
         }
 
         Ok(())
@@ -366,11 +386,21 @@ impl<T: Qcow2IoOps> Qcow2Dev<T> {
             let start = key_fn((idx as u64) << bs_bits);
             let end = key_fn(((idx + 1) as u64) << bs_bits);
 
-            if self.flush_cache(cache, start, end).await? {
-                // order cache flush and the upper layer table
-                self.call_fsync(0, usize::MAX, 0).await?;
+            let res = async {
+                if self.flush_cache(cache, start, end).await? {
+                    // order cache flush and the upper layer table
+                    self.call_fsync(0, usize::MAX, 0).await?;
+                }
+                self.flush_table(rt, idx << bs_bits, 1 << bs_bits).await
             }
-            self.flush_table(rt, idx << bs_bits, 1 << bs_bits).await?;
+            .await;
+
+            // this block of top table isn't written out, so it is still dirty
+            if res.is_err() {
+                rt.set_dirty(((idx << bs_bits) >> 3) as usize);
+                self.mark_need_flush(true);
+            }
+            res?;
             Ok(false)
         } else {
             // flush cache without holding top table read lock
